@@ -17,7 +17,7 @@ generated legal trivia and documentation comments, plus the repository's own def
 the formatted text parses; its structure (interface name, documentation comments of interface and members, per-kind \
 member order, names, types) equals the intended one and the original's; formatting the result again reproduces the \
 text byte for byte; Display == width 80; the colored rendering with escape sequences stripped equals the plain \
-text and contains escape sequences; for a sample the command-line tool prints exactly that text. Non-trivial: the \
+text and contains escape sequences; for a sample the command-line tool prints exactly that text. The parser's documentation texts are equal character for character before and after; for every other definition the colored rendering of a width is taken before the plain one. Non-trivial: the \
 definition takes at least 2 distinct layouts across the widths and carries at least one documentation comment; \
 distinct by (definition, layout).";
 
